@@ -125,6 +125,8 @@ def catalogue():
         ('huge_int', lambda: 10 ** 5000), ('lock', lambda: threading.Lock()), ('frozenset', lambda: frozenset([1])),
         ('set_mixed', lambda: {1, 'a'}), ('exception_with_hostile_args', lambda: ValueError(RaisingStr(), b'x')),
         ('base_exception', lambda: KeyboardInterrupt('stop')), ('frame', lambda: sys._getframe()),
+        ('named_like_a_builtin', lambda: type('list', (), {'x': 1})()),
+        ('named_tuple_no_len', lambda: type('tuple', (), {'__len__': lambda self: 1 // 0})()),
         ('raising_eq', lambda: RaisingEq()), ('unhashable', lambda: Unhashable()),
         ('raising_bool', lambda: RaisingBool()),
         ('code', lambda: catalogue.__code__), ('weird_str_subclass', lambda: type('S', (str,), {})('abc')),
